@@ -432,6 +432,10 @@ class Bit:
             r = {'eq': ca == cb, 'ne': ca != cb, 'ult': ca < cb, 'ule': ca <= cb, 'ugt': ca > cb, 'uge': ca >= cb,
                  'slt': s(ca) < s(cb), 'sle': s(ca) <= s(cb), 'sgt': s(ca) > s(cb), 'sge': s(ca) >= s(cb)}[pred]
             return (r, None)
+        if ca is not None and cb is None and pred not in ('eq', 'ne'):
+            # constant on the left: 0 < x is x > 0 (one spelling for the rules below and for the refinements)
+            mirror = {'ult': 'ugt', 'ule': 'uge', 'ugt': 'ult', 'uge': 'ule', 'slt': 'sgt', 'sle': 'sge', 'sgt': 'slt', 'sge': 'sle'}
+            return self.cmp(kind, mirror[pred], b, a, ty)
         if pred in ('eq', 'ne'):
             diff = [x ^ y for x, y in zip(a.bits, b.bits)]
             if any(d == ONE for d in diff):
@@ -657,6 +661,13 @@ class Bit:
         cb = b.c if isinstance(b, Off) else b
         if ta == tb:
             return BV.const((ca - cb) & ((1 << 64) - 1), 64)
+        d = dict(ta)
+        for k, v in tb.items():
+            d[k] = d.get(k, 0) - v
+        d = {k: v for k, v in d.items() if v}
+        if all(isinstance(k, tuple) and len(k) == 2 and k[0] == 'lin' for k in d):
+            # cursor - base with the cursor offset a linear counter: the difference is that counter
+            return Lin({k[1]: v for k, v in d.items()}, ca - cb, 64)
         raise Unsupported('difference of symbolic offsets')
 
     def off_key(self, off):
